@@ -21,6 +21,7 @@ def split_gap(rng, d, k):
 
 class C07(PropBase):
     id = 'C07'
+    address_change = 0.15
     rx_only_gaps = 0.1
     partial_passes = 0.25
     rx_only_passes = 0.4
